@@ -59,6 +59,15 @@ def gen_hist_case(rng, max_n=6, max_ops=7):
                 if rng.random() < 0.7:  # restart with the same selection
                     for k in ("target", "exclude", "root", "cache_deps_of", "run_debug"):
                         op[k] = srcop[k]
+                    # ... and the same arguments, or fewer (an omitted defaulted argument is then read from the file)
+                    ra = rng.random()
+                    if ra < 0.5:
+                        op["args"] = list(srcop["args"])
+                    elif ra < 0.8:
+                        op["args"] = list(srcop["args"])[:rng.randint(nreq, len(srcop["args"]))] if len(srcop["args"]) >= nreq else list(srcop["args"])
+                # the restart may write its own results back into the file it started from
+                if op["cache_in"] and rng.random() < 0.4:
+                    op["same_file"] = True
             if rng.random() < 0.2 and cache_deps_of is None and op["from_cache"] is None:
                 op.update(defer=True, cache_in=False, again=False)
             if op["cache_in"]:
@@ -113,6 +122,14 @@ CORPUS = [
     # the restart must not run m again
     _chain_case(4, [[0, 1], [1, 2], [2, 3]], [_ex(cache_deps_of=[1, 3], cache_in=True), _ex(cache_deps_of=[1, 3], from_cache=0)]),
     _chain_case(5, [[0, 1], [1, 2], [2, 3], [0, 4]], [_ex(cache_deps_of=[1, 3], cache_in=True), _ex(cache_deps_of=[1, 3], from_cache=0), _ex(from_cache=0)], is_async=True),
+    # a restart that writes its results back into the file it started from; the next restart runs nothing
+    _chain_case(3, [[0, 1], [1, 2]], [_ex(target=[0], cache_in=True), _ex(from_cache=0, cache_in=True, same_file=True), _ex(from_cache=1)]),
+    _chain_case(3, [[0, 1], [1, 2]], [_ex(target=[0], cache_in=True), _ex(from_cache=0, cache_in=True, same_file=True), _ex(from_cache=1)], is_async=True),
+    # a defaulted parameter: the caching run overrides it, the restart omits it (its value is read from the file)
+    _chain_case(3, [[0, 1], [1, 2]], [_ex(cache_deps_of=[1], cache_in=True, args=[5]), _ex(cache_deps_of=[1], from_cache=0, args=[])],
+                params=[dict(default=1)], param_use={"0": [0], "1": [0]}),
+    _chain_case(3, [[0, 1]], [_ex(target=[1], cache_in=True, args=[7, 8]), _ex(target=[1, 2], from_cache=0, args=[7])],
+                params=[dict(default=1), dict(default=2)], param_use={"1": [0, 1], "2": [1]}),
     # one path rewritten between two restarts
     _chain_case(3, [[0, 1], [1, 2]], [_ex(target=[1], cache_in=True), _ex(from_cache=0), _ex(cache_in=True), _ex(from_cache=2)]),
 ]
@@ -257,7 +274,10 @@ def run_history(case, tmpdir):
                     kw["cache_in"] = os.path.join(tmpdir, "c%d.pkl" % oi)
                 if op["from_cache"] is not None and op["from_cache"] in caches:
                     kw["from_cache"] = caches[op["from_cache"]]["path"]
-                    o["cache_keys_loaded"] = caches[op["from_cache"]]["keys"]
+                    o["cache_keys_loaded"] = list(caches[op["from_cache"]]["keys"])
+                    o["cache_src_overwritten"] = bool(caches[op["from_cache"]].get("overwritten"))
+                    if op.get("same_file") and op["cache_in"]:
+                        kw["cache_in"] = kw["from_cache"]
                 try:
                     exo = cur.executor(**kw)
                 except ValueError as e:
@@ -276,6 +296,11 @@ def run_history(case, tmpdir):
                         keys = ["<unreadable: %s>" % type(e).__name__]
                     caches[oi] = dict(path=kw["cache_in"], keys=keys, value=st[1])
                     o["cache_keys_written"] = keys
+                    # a file that was written again holds the later run's results: what was recorded about the
+                    # earlier caching run no longer describes it
+                    for oj, cj in caches.items():
+                        if oj != oi and cj["path"] == kw["cache_in"]:
+                            cj.update(keys=keys, overwritten=True)
                 if st[0] == "ok" and op["from_cache"] is not None and op["from_cache"] in caches:
                     o["cache_src_value"] = caches[op["from_cache"]]["value"]
                 if op.get("again") and st[0] == "ok":
@@ -476,10 +501,11 @@ def run(pid, tier, seed, res, only=None):
                 if again:
                     res.hit("C18", "monitor", "restart from the cache file executed node(s) %s whose result is in the file" % again, dict(base, kind="monitor", op_index=oi))
                 src = case["ops"][op["from_cache"]]
-                same_sel = all(src[k] == op[k] for k in ("target", "exclude", "root", "cache_deps_of", "run_debug")) and src["args"] == op["args"]
+                # same selection, and the same arguments or a prefix of them (omitted arguments come from the file)
+                same_sel = all(src[k] == op[k] for k in ("target", "exclude", "root", "cache_deps_of", "run_debug")) and src["args"][:len(op["args"])] == op["args"]
                 if o["status"] == "raise":
                     res.hit("C18", "monitor", "restart from the cache file raised %s" % o["error"], dict(base, kind="monitor", op_index=oi))
-                elif same_sel and op["cache_deps_of"] is None and o["value"] != o.get("cache_src_value"):
+                elif same_sel and not o.get("cache_src_overwritten") and o["value"] != o.get("cache_src_value"):
                     # position i of the returned tuple is node n_i.  A setup node that was outside the caching
                     # run's selection (None there) and has been set up on the instance since is legitimately
                     # returned with its real value ("already-computed nodes", C12/C15): not a difference.
@@ -491,6 +517,13 @@ def run(pid, tier, seed, res, only=None):
                                 bad_ = True
                     if bad_:
                         res.hit("C18", "monitor", "restart from the cache file returned %r, the caching run returned %r" % (o["value"], o.get("cache_src_value")), dict(base, kind="monitor", op_index=oi))
+            if o["status"] == "ok" and op["cache_in"] and "cache_keys_written" in o:
+                # what the run had (loaded or computed) is what the file holds afterwards (minus cache_deps_of)
+                listed = set(names(op["cache_deps_of"]) or [])
+                must = (set(o["executed"]) | set(x for x in (o.get("cache_keys_loaded") or []) if not str(x).startswith("<"))) - listed
+                lack = sorted(x for x in must if x not in o["cache_keys_written"])
+                if lack:
+                    res.hit("C18", "monitor", "the file written with cache_in lacks the results of %s, which this run computed or loaded" % lack, dict(base, kind="monitor", op_index=oi))
             if o["status"] == "ok" and op["cache_in"] and op["cache_deps_of"] is not None:
                 depn = names(op["cache_deps_of"])
                 keys = o.get("cache_keys_written", [])
